@@ -34,13 +34,21 @@ Definition kind_of_comb (c : comb) : kind Z :=
   | CPipeline => KPipe
   end.
 
-Definition reduce_fn (a : Z) (r v : Z) : Z := r * a + v.     (* neither commutative nor associative for a <> 1 *)
+(* reducers handed to ReduceChan. The zero value 0 is a left identity of the sum only: a fold that started from
+   the zero value instead of the first element shows with every other member (product, max/min across 0,
+   subtraction, keep-first, the affine one with b <> 0). *)
+Inductive rfn := RSum | RProd | RMax | RMin | RSub | RFirst | RLast | RAffine (a b : Z).   (* r * a + v + b *)
+Definition reduce_fn (f : rfn) (r v : Z) : Z :=
+  match f with
+  | RSum => r + v | RProd => r * v | RMax => Z.max r v | RMin => Z.min r v | RSub => r - v
+  | RFirst => r | RLast => v | RAffine a b => r * a + v + b
+  end.
 
 Inductive case :=
 | KStage (c : comb) (nil_in : bool) (incap : nat) (ins outs : list Z) (closed cancelled : bool)
 | KFanIn (ins : list (list Z)) (outs : list Z) (closed : bool)          (* FanInRec / MergeChannel; a nil source is [] *)
 | KFanOut (async : bool) (ins : list Z) (outs : list (list Z)) (closed : list bool)
-| KReduce (nil_in : bool) (a : Z) (ins : list Z) (result : Z)
+| KReduce (nil_in : bool) (a : rfn) (ins : list Z) (result : Z)
 | KOrderly (n : nat) (log : list (nat * bool)) (returned : bool).
 
 Definition isnil {A} (l : list A) : bool := match l with [] => true | _ => false end.
